@@ -1177,7 +1177,7 @@ func main() {
 		NewImpl: newImpl,
 		Gen:     gen,
 		Fixed:   fixed,
-		Count:   map[string]int{"quick": 56, "thorough": 1500},
+		Count:   map[string]int{"quick": 56, "thorough": 1100},
 		Extra:   extra,
 	})
 }
